@@ -950,6 +950,8 @@ std::optional<EdgeInputsRange> ImplicitDepLoader::LoadDepFile(
   // Ensure that all mentioned outputs are outputs of the edge.
   for (std::vector<StringPiece>::iterator o = depfile.outs_.begin();
        o != depfile.outs_.end(); ++o) {
+    if (o != primary_out)
+      CanonicalizePath(const_cast<char*>(o->str_), &o->len_, &unused);
     matches m(o);
     if (std::find_if(edge->outputs_.begin(), edge->outputs_.end(), m) == edge->outputs_.end()) {
       *err = path + ": depfile mentions '" + o->AsString() + "' as an output, but no such output was declared";
